@@ -205,6 +205,14 @@ class CallsMixin:
             raise Unsupported(f"call of opaque value {f.label or f.e} at {fr.where()}")
         raise Unsupported(f"call of {f!r} at {fr.where()}")
 
+    def ghost_initial(self, ty):
+        """initial value of a ghost field of a freshly constructed object"""
+        if ty == "bool":
+            return False
+        if ty == "bytes":
+            return ops.payload_lit(self.ctx, b"")
+        return 0
+
     def call_argparse(self, f, args, kwargs, fr):
         fself = f.__self__
         if True:
@@ -396,6 +404,16 @@ class CallsMixin:
             mod = cls.__module__ or ""
             if mod.startswith("hypercorn") and "__init__" in cls.__dict__:
                 obj = SObj(cls, {"args": tuple(args)})
+                efc = self.reg.fns.get(f"{cls.__module__}:{cls.__qualname__}.__init__")
+                ecc = self.reg.classes.get(f"{cls.__module__}:{cls.__qualname__}")
+                if efc is not None and ecc is not None and not self.is_inlining(efc.qualname):
+                    # constructor by contract (as for other repository classes): declared fields
+                    # start unconstrained, the postcondition of __init__ pins them down
+                    obj.tag = self.ctx.fresh_name(cls.__name__.lower())
+                    for f_, t_ in ecc.fields.items():
+                        obj.fields[f_] = self.make_symbolic(t_, f"{obj.tag}.{f_}", assume_inv=False)
+                    self.apply_contract(efc, [obj] + list(args), kwargs, fr)
+                    return obj
                 self.call_method(obj, "__init__", args, kwargs, fr, False)
                 return obj
             return SObj(cls, {"args": tuple(args)})
@@ -424,7 +442,7 @@ class CallsMixin:
                 # this unit sees the class only through an interface contract (a "port"): the
                 # constructor call is recorded, the object carries the port's ghost state
                 vcc = self.reg.classes[view]
-                obj = SObj(view, {g_: (False if t_ == "bool" else 0) for g_, t_ in vcc.ghost.items()}, tag=self.ctx.fresh_name(view.split(":")[1].lower()))
+                obj = SObj(view, {g_: self.ghost_initial(t_) for g_, t_ in vcc.ghost.items()}, tag=self.ctx.fresh_name(view.split(":")[1].lower()))
                 self.register_shared(obj)
                 self.traces.setdefault("calls", []).append((f"{cls.__qualname__}.__init__", obj) + tuple(args) + tuple(kwargs.values()))
                 return obj
@@ -440,7 +458,7 @@ class CallsMixin:
                 for f_, t_ in cc.fields.items():
                     obj.fields[f_] = self.make_symbolic(t_, f"{obj.tag}.{f_}", assume_inv=False)
                 for g_, t_ in cc.ghost.items():
-                    obj.fields[g_] = False if t_ == "bool" else 0
+                    obj.fields[g_] = self.ghost_initial(t_)
                 self.register_shared(obj)
                 self.apply_contract(fc, [obj] + list(args), kwargs, fr)
             else:
@@ -448,7 +466,7 @@ class CallsMixin:
                 if cc is not None:
                     # ghost state starts at its initial value (False / 0)
                     for g, t in cc.ghost.items():
-                        obj.fields[g] = False if t == "bool" else 0
+                        obj.fields[g] = self.ghost_initial(t)
                     obj.tag = self.ctx.fresh_name(cls.__name__.lower())
                     self.register_shared(obj)
                 md = method_def(cls, "__init__")
